@@ -3,6 +3,7 @@ package main
 import (
 	"fmt"
 	"go/token"
+	"go/types"
 	"strings"
 
 	"golang.org/x/tools/go/ssa"
@@ -553,7 +554,16 @@ func checkC11(c *Ctx, r *Report) {
 				}
 			})
 		}
-		r.Check(nb == "Now()" && strings.HasPrefix(na, "Add(Now(),") && strings.Contains(na, "$hoursValid"), "C11.R1", "validity is [now, now + hoursValid]", c.Pos(f.Pos()), "NotBefore="+nb+" NotAfter="+na, "validity period is not [time.Now(), time.Now()+hoursValid·Hour]: NotBefore="+nb+" NotAfter="+na)
+		fromParam := false
+		for pi, q := range f.Params {
+			if pi == 0 && f.Signature.Recv() != nil {
+				continue
+			}
+			if bt, isB := q.Type().Underlying().(*types.Basic); isB && bt.Info()&types.IsInteger != 0 && strings.Contains(na, "$"+pname(q)) {
+				fromParam = true // the lifetime the caller asks for (hours as an int, or a time.Duration)
+			}
+		}
+		r.Check(nb == "Now()" && strings.HasPrefix(na, "Add(Now(),") && fromParam, "C11.R1", "validity is [now, now + hoursValid]", c.Pos(f.Pos()), "NotBefore="+nb+" NotAfter="+na, "validity period is not [time.Now(), time.Now()+hoursValid·Hour]: NotBefore="+nb+" NotAfter="+na)
 		r.Check(ipArm && dnsArm, "C11.R1", "names go to IPAddresses if they parse as IP, else to DNSNames", c.Pos(f.Pos()), "both arms present under net.ParseIP", fmt.Sprintf("SAN arms missing (ip=%v dns=%v): IP-literal or DNS targets get a certificate that does not name them", ipArm, dnsArm))
 	}
 	for _, f := range c.FuncsNamed("(*" + certsPkg + ".PrivateCA).GetCertForHost") {
@@ -576,8 +586,21 @@ func checkC11(c *Ctx, r *Report) {
 				}
 				if strings.HasSuffix(nme, "PrivateCA).createCert") {
 					n++
-					if a := ctxAtom(callArgs(call)[1], hc.ctx); a != host {
-						bad = append(bad, "createCert("+a+")")
+					// the host is among the arguments (whatever their order)
+					named := false
+					var shown []string
+					for ai, arg := range callArgs(call) {
+						if ai == 0 {
+							continue
+						}
+						a := ctxAtom(arg, hc.ctx)
+						shown = append(shown, a)
+						if a == host {
+							named = true
+						}
+					}
+					if !named {
+						bad = append(bad, "createCert("+strings.Join(shown, ",")+")")
 					}
 				}
 			})
